@@ -1246,6 +1246,7 @@ func doOp(o *Op) {
 						st = "canceled"
 					}
 					R.orphans = append(R.orphans, st)
+					ret["orphan"] = st
 					delete(R.names, old)
 					delete(R.scopes, o.Name)
 				}
